@@ -20,7 +20,8 @@ import (
 // ( p t ), ( s t ), ( a <len> t ), ( m k v ), ( c <dir> t ), ( f <nparams> t... ), ( v t ) for a
 // variadic last parameter, ( st <name>:<embedded>,... t... ), ie, il.
 // The answer is the serialised result of TypeToExpr and the import table.
-var verifBasics = []string{"int", "string", "bool", "float64", "error", "any", "byte", "uint8"}
+var verifBasics = []string{"int", "string", "bool", "float64", "error", "any", "byte", "uint8",
+	"int8", "int64", "uint", "float32", "complex128", "uintptr", "rune", "uint16"}
 
 type verifTypes struct {
 	pkgs    []*types.Package
